@@ -17,9 +17,13 @@ event or a direct testbench override ``ctx.set(inp, v)`` (via = 1 / 0).  The out
 changed in events without an output-clock edge (same race otherwise; excluded at generation)."""
 import random
 
-from amaranth.hdl import Cat, ClockDomain, Module, Signal, ResetSignal
+from amaranth.hdl import Cat, ClockDomain, Module, Signal, ResetSignal, signed
 from amaranth.sim import Simulator
 from amaranth.lib import cdc as _cdc
+
+import warnings
+# (an unsigned initial pattern given to a synchronizer of a signed value is wrapped, with a warning)
+warnings.filterwarnings("ignore", message="Initial value .* will be truncated", category=SyntaxWarning)
 
 PRIMS = ("ff", "async", "reset", "pulse")
 # the design family around the primitive (spec keys; all optional):
@@ -43,6 +47,12 @@ class _Input:
         if kind == "sig":
             x = own if own is not None else Signal(width, name="inp", init=i0)
             self.ops, self.u, self.expr = [x], [i0], x
+        elif kind == "sgn":          # a signed signal (its bit pattern is what travels through the synchronizer)
+            x = Signal(signed(width), name="sinp", init=i0 - (1 << width) if i0 >> (width - 1) else i0)
+            self.ops, self.u, self.expr = [x], [i0], x
+        elif kind == "as_s":         # a sign reinterpretation of an unsigned signal
+            x = Signal(width, name="inp", init=i0)
+            self.ops, self.u, self.expr = [x], [i0], x.as_signed()
         elif kind == "not":
             x = Signal(width, name="x", init=~i0 & mask)
             self.ops, self.u, self.expr = [x], [~i0 & mask], ~x
@@ -70,7 +80,7 @@ class _Input:
 
     def value(self, u):
         k, mask = self.kind, self.mask
-        if k == "sig":
+        if k in ("sig", "sgn", "as_s"):
             return u[0]
         if k == "not":
             return ~u[0] & mask
@@ -84,7 +94,7 @@ class _Input:
         """operand values with expression value v (noise: also move what does not matter)"""
         k, mask = self.kind, self.mask
         new = list(u)
-        if k == "sig":
+        if k in ("sig", "sgn", "as_s"):
             new[0] = v
         elif k == "not":
             new[0] = ~v & mask
@@ -150,6 +160,8 @@ def build(spec):
             kw = dict(od)
             if "init" in spec:
                 kw["init"] = spec["init"]
+                if kind in ("sgn", "as_s") and spec["init"] >> (width - 1):      # the same pattern as a signed value
+                    kw["init"] = spec["init"] - (1 << width)
             if "reset_less" in spec:
                 kw["reset_less"] = bool(spec["reset_less"])
             m.submodules.dut = _cdc.FFSynchronizer(inp.expr, out, stages=stages, **kw)
@@ -220,7 +232,7 @@ def run(spec, events):
                     ctx.set(Cat(ops, co.rst), b | (r << sh))
                 else:
                     ctx.set(ops, b)
-            u = [ctx.get(o) for o in inp.ops]
+            u = [ctx.get(o) & ((1 << len(o)) - 1) for o in inp.ops]      # bit patterns (operands may be signed)
             if u != new or inp.value(u) != v:
                 raise RuntimeError("harness: operands are %r, expected %r (value %r)" % (u, new, v))
             cur, rst = v, r
